@@ -221,6 +221,24 @@ var c01Tampers = []c01Tamper{
 		}
 		return true
 	}},
+	{"hex-field-character-bit", func(r *rand.Rand, e *mocrelay.Event, _ []vk.Key) bool {
+		// one bit of one character of id, pubkey or sig flipped (the character, not the nibble it
+		// spells: '7' becomes a control character, 'a' becomes 'A' or '!')
+		f := []*string{&e.ID, &e.ID, &e.Pubkey, &e.Sig}[r.IntN(4)]
+		b := []byte(*f)
+		i := r.IntN(len(b))
+		b[i] ^= 1 << uint(r.IntN(7))
+		if r.IntN(2) == 0 {
+			b[i] = (*f)[i] ^ 0x20 // the ASCII letter-case bit, on digits too
+		}
+		if c := b[i]; (c >= 'A' && c <= 'F') || (c >= '0' && c <= '9') || (c >= 'a' && c <= 'f') {
+			// still a hex digit: either another value (the nibble tampers do that) or the same
+			// value spelled in upper case, which Verify alone is not claimed to refuse
+			return false
+		}
+		*f = string(b)
+		return true
+	}},
 	{"id-nibble", func(r *rand.Rand, e *mocrelay.Event, _ []vk.Key) bool {
 		e.ID = bumpNibble(e.ID, r.IntN(64))
 		return true
